@@ -333,7 +333,7 @@ def execute(scn, ctx):
         o, c = M.build_scores(spec)
         objs.append(o)
         callers.append(c)
-        caller_fp.append(M.fingerprint(list(c.values())))
+        caller_fp.append(c.fp0)
     viol, trace = [], []
     probes, faults = {}, {}
     sig = []
